@@ -9,6 +9,7 @@ import (
 	"math/big"
 	"math/rand"
 	"strings"
+	"sync"
 	"time"
 
 	"github.com/cep21/circuit/v4/faststats"
@@ -93,6 +94,13 @@ func (rcFamily) Gen(r *rand.Rand, i int, tier string) *hc.Case {
 			}
 			continue
 		}
+		if nn := int64(p.N); !farUsed && latest >= int64(1)<<32-nn-2 && latest < int64(1)<<32+nn {
+			// walking across bucket index 2^32 one bucket at a time, counting and reading on both sides of it
+			latest++
+			t := p.at(latest*p.W + hc.Pick(r, int64(0), p.W-1))
+			ops = append(ops, rcOp{"inc", t}, rcOp{hc.Pick(r, "sum", "buckets", "buckets"), t})
+			continue
+		}
 		before := latest
 		t := rcStamp(r, p, &latest, &farUsed, len(ops) > nops*2/3)
 		huge := farUsed || (latest > before && latest >= int64(1)<<53)
@@ -170,6 +178,14 @@ func rcStamp(r *rand.Rand, p rcParams, latest *int64, farUsed *bool, late bool) 
 			*farUsed = true
 			return hc.TS{S: 400 * 365 * 86400} // Sub saturates: ~ 292 years
 		}
+		if w <= int64(time.Millisecond) && r.Intn(3) == 0 {
+			// a window that straddles bucket index 2^32 (seconds to weeks after the start, with narrow buckets)
+			k := int64(1)<<32 - hc.Pick(r, int64(1), 2, n, n+1)
+			if k > l {
+				d = k*w + hc.Pick(r, int64(0), w-1)
+				break
+			}
+		}
 		if w <= 1000 && r.Intn(2) == 0 {
 			// a bucket index past 2^53 (odd: no float64 holds it) -- narrow buckets, months to decades after the start
 			k := int64(1)<<53 + 1 + 2*int64(r.Intn(50))
@@ -186,12 +202,50 @@ func rcStamp(r *rand.Rand, p rcParams, latest *int64, farUsed *bool, late bool) 
 	return p.at(d)
 }
 
+// counterStressProbe (search, real goroutines): a counter that has already seen about a million events, then four
+// parties counting into one bucket at once; at quiescence C14's conservation clauses hold.
+func counterStressProbe(c *hc.Case) {
+	start := hc.T0
+	for round := 0; round < 60; round++ {
+		ctr := faststats.NewRollingCounter(time.Second, 4096, start) // many buckets: a scan of them takes a while
+		pre := 1<<20 - 4000 - round
+		for k := 0; k < pre; k++ {
+			ctr.Inc(start)
+		}
+		var wg sync.WaitGroup
+		for g := 0; g < 4; g++ {
+			wg.Add(1)
+			go func() {
+				defer wg.Done()
+				for k := 0; k < 4000; k++ {
+					ctr.Inc(start)
+				}
+			}()
+		}
+		wg.Wait()
+		want := int64(pre + 16000)
+		bsum := int64(0)
+		for _, b := range ctr.GetBuckets(start) {
+			bsum += b
+		}
+		if got := ctr.RollingSumAt(start); ctr.TotalSum() != want || got != bsum || got != want {
+			c.Viol = append(c.Viol, hc.Violation{Clause: "C14: once all operations have returned TotalSum equals the number of Inc calls and the rolling sum equals the sum of the buckets", Detail: fmt.Sprintf("%d Inc calls in one bucket (the last 16000 by four goroutines): TotalSum %d, rolling sum %d, buckets sum %d", want, ctr.TotalSum(), got, bsum), AtOp: len(c.Ops)})
+			return
+		}
+	}
+}
+
 func (rcFamily) Exec(c *hc.Case) {
 	var p rcParams
 	must(json.Unmarshal(c.Params, &p))
+	if c.ID == 0 {
+		defer counterStressProbe(c)
+	}
 	start := hc.TimeOf(p.Start)
 	ctr := faststats.NewRollingCounter(time.Duration(p.W), p.N, start)
 	cur := &ctr
+	var decoys []*faststats.RollingCounter
+	_ = decoys
 	// the property's own oracle, straight from its statement
 	var incs []*big.Int // bucket index of each Inc since the last Reset that was valid when made
 	latest := big.NewInt(0)
@@ -312,6 +366,18 @@ func (rcFamily) Exec(c *hc.Case) {
 					break
 				}
 				cur = fresh
+				// another counter restored right afterwards (same goroutine) and used: restored counters are independent
+				other := faststats.NewRollingCounter(time.Duration(p.W), p.N, start)
+				for k := 0; k < 3; k++ {
+					other.Inc(start.Add(time.Duration(int64(k%p.N) * p.W)))
+				}
+				if ob, err := json.Marshal(&other); err == nil {
+					decoy := &faststats.RollingCounter{}
+					if json.Unmarshal(ob, decoy) == nil {
+						decoy.Inc(start.Add(time.Duration(int64(p.N-1) * p.W)))
+						decoys = append(decoys, decoy)
+					}
+				}
 				tags["op:json"] = true
 			}
 		}()
